@@ -13,7 +13,7 @@ import (
 
 // C10 — positional arguments bind in declaration order.
 
-var c10Scalars = []*decl.Type{decl.TString, decl.TInt, decl.TUpper}
+var c10Scalars = []*decl.Type{decl.TString, decl.TInt, decl.TUpper, decl.TMapSI}
 
 // the int field at an odd position of a layout carries base:"8" (so "7" converts, "-3" converts, "10" would be 8)
 func c10Base(t *decl.Type, pos int) string {
@@ -25,9 +25,10 @@ func c10Base(t *decl.Type, pos int) string {
 
 var c10Slices = []*decl.Type{nil, decl.TStrings, decl.TInts}
 
-var c10Units = [][]string{{"w"}, {"7"}, {"-3"}, {"-v"}, {"-s", "val"}, {"--"}, {"-x"}, {"cmd"}, {"--str=q"}, {"10"}}
+var c10Units = [][]string{{"w"}, {"7"}, {"-3"}, {"-v"}, {"-s", "val"}, {"--"}, {"-x"}, {"cmd"}, {"--str=q"}, {"10"}, {"k:1"}}
 
-func c10Decl(types []int, slice int, owner int, pdd bool) *decl.Decl {
+func c10Decl(types []int, slice int, owner int, popt int) *decl.Decl {
+	pdd := popt&1 != 0
 	mk := func() []*decl.PosArg {
 		var pos []*decl.PosArg
 		for i, t := range types {
@@ -58,6 +59,9 @@ func c10Decl(types []int, slice int, owner int, pdd bool) *decl.Decl {
 	if pdd {
 		d.Options = flags.PassDoubleDash
 	}
+	if popt&2 != 0 {
+		d.Options |= flags.PassAfterNonOption
+	}
 	return d.Finish()
 }
 
@@ -71,6 +75,9 @@ func init() {
 			return
 		}
 		for t := range c10Scalars {
+			if len(cur) == 2 && (t == 3 || cur[0] == 3 || cur[1] == 3) {
+				continue // three-field layouts use the first three types only
+			}
 			rec(append(cur, t))
 		}
 	}
@@ -80,13 +87,17 @@ func init() {
 		li := c.Choose(len(layouts))
 		si := c.Choose(len(c10Slices))
 		owner := c.Choose(3)
-		pdd := c.Bool()
+		popt := c.Choose(4) // bit 0 PassDoubleDash, bit 1 PassAfterNonOption
+		pdd := popt&1 != 0
 		api := c.Bool()
 		maxDepth := 4
+		if len(layouts[li]) == 3 || popt >= 2 || owner == 2 {
+			maxDepth = 3 // the larger declaration families go one unit less deep
+		}
 		if c.Thorough {
-			maxDepth = 5
-			if owner == 0 && api && pdd {
-				maxDepth = 6 // one declaration family goes one unit deeper
+			maxDepth++
+			if owner == 0 && api && popt == 1 && len(layouts[li]) < 3 {
+				maxDepth = 6 // one declaration family goes one unit deeper still
 			}
 		}
 		n := c.Choose(maxDepth + 1)
@@ -94,13 +105,13 @@ func init() {
 		for i := 0; i < n; i++ {
 			argv = append(argv, c10Units[c.Choose(len(c10Units))]...)
 		}
-		key := fmt.Sprintf("l%d/s%d/%v/%v", li, si, owner, pdd)
+		key := fmt.Sprintf("l%d/s%d/%v/%v", li, si, owner, popt)
 		d := cache[key]
 		if d == nil {
 			if len(cache) > 100 {
 				cache = map[string]*decl.Decl{}
 			}
-			d = c10Decl(layouts[li], si, owner, pdd)
+			d = c10Decl(layouts[li], si, owner, popt)
 			cache[key] = d
 		}
 		c.Describe(func() interface{} {
@@ -111,7 +122,7 @@ func init() {
 			if c10Slices[si] != nil {
 				ts = append(ts, c10Slices[si].Name)
 			}
-			return map[string]interface{}{"positional_fields": ts, "owner(0 parser,1 command,2 both)": owner, "pass_double_dash": pdd, "api_path": api, "argv": argv}
+			return map[string]interface{}{"positional_fields": ts, "owner(0 parser,1 command,2 both)": owner, "pass_double_dash": pdd, "pass_after_non_option": popt&2 != 0, "api_path": api, "argv": argv}
 		})
 		cfg := &ref.Config{D: d}
 		res := ref.Run(cfg, argv)
@@ -217,8 +228,8 @@ func init() {
 		Level:      "model_checking",
 		ShardDepth: 3,
 		Body:       body,
-		Rule: "positional layouts: every sequence of 0..3 scalar fields over {string, int, Unmarshaler} (an int field at an odd position carries base:\"8\") x trailing slice {none, []string, []int} x owner {parser, command, both (the same layout on each)} x PassDoubleDash on/off x {tags, API} " +
-			"x every sequence of <= 4 (quick) / <= 5 (thorough; <= 6 for parser-owned layouts built through the API with PassDoubleDash) units over {w, 7, -3, 10, -v, -s val, --, -x, cmd, --str=q}; oracle = CLM positional queue (field values after conversion, overflow into remaining arguments); after every accepted vector the public Args() list must still be the declared one and, for layouts without a slice, a second parse of the same vector on the same parser must bind the same fields",
+		Rule: "positional layouts: every sequence of 0..3 scalar fields over {string, int, Unmarshaler, map[string]int} (an int field at an odd position carries base:\"8\") x trailing slice {none, []string, []int} x owner {parser, command, both (the same layout on each)} x {None, PassDoubleDash, PassAfterNonOption, both} x {tags, API} " +
+			"x every sequence of <= 4 units (<= 3 for three-field layouts, PassAfterNonOption and both-owner declarations; thorough: one more everywhere, 6 for parser-owned layouts built through the API with PassDoubleDash) over {w, 7, -3, 10, k:1, -v, -s val, --, -x, cmd, --str=q}; oracle = CLM positional queue (field values after conversion, overflow into remaining arguments); after every accepted vector the public Args() list must still be the declared one and, for layouts without a slice, a second parse of the same vector on the same parser must bind the same fields",
 		Assumptions:  []string{"conversion of the alphabet's tokens is taken from the conversion model (checked against the library by C11)"},
 		RequiredHits: []string{"compared", "three-or-more-bound", "after-terminator", "conversion-fault", "second-parse"},
 		Bound:        [2]string{"all unit sequences of length <= 4", "all unit sequences of length <= 5 (<= 6 on one declaration family)"},
